@@ -1,6 +1,7 @@
 CONSTANT N = 3
 CONSTANT PLENS = {2, 3}
 CONSTANT ANCHOR = TRUE
+CONSTANT FINE = {2}
 CONSTANT NORMALISE = TRUE
 SPECIFICATION Spec
 CHECK_DEADLOCK FALSE
